@@ -23,6 +23,10 @@
 (*             not exactly their two shard ids                             *)
 (*   balanced  after all streams ended some counter is not zero            *)
 (*   crash     an Open without Result: the process died                    *)
+(* ServePanic records (one stream fails by a panic inside handleStream,    *)
+(* then a well-formed stream on the same shard) and Concurrent records     *)
+(* (workers open and close small ids while other opens force growth):      *)
+(*   ends / followup / printer / balanced as above                         *)
 (* Conformance with the design at W = 32 (StreamPred), not verdicts:       *)
 (*   predleak  the design of the pinned code predicts a leaked lock        *)
 (*   notcur / notfixed  the observation differs from what the design of    *)
@@ -67,11 +71,21 @@ OnFollowUp(e) ==
              Bad(e.id, obs = PredCur(c), "notcur") \cup
              Bad(e.id, obs = PredFixed(c), "notfixed"))
 
+OnServePanic(e) ==
+  /\ UNCHANGED <<inp, res>>
+  /\ Flag(Bad(e.id, e.failing = "rejected", "ends") \cup Bad(e.id, e.follow = "served", "followup")
+          \cup Bad(e.id, e.printer = "ok", "printer") \cup Bad(e.id, e.printer # "ok" \/ e.after = <<>>, "balanced"))
+OnConcurrent(e) ==
+  /\ UNCHANGED <<inp, res>>
+  /\ Flag(Bad(e.id, e.notserved = 0, "followup") \cup Bad(e.id, e.printer = "ok", "printer")
+          \cup Bad(e.id, e.printer # "ok" \/ e.after = <<>>, "balanced"))
 Next == /\ i <= Len(Trace) /\ i' = i + 1
         /\ LET e == Trace[i] IN
            CASE e.ev = "Open" -> OnOpen(e)
              [] e.ev = "Result" -> OnResult(e)
              [] e.ev = "FollowUp" -> OnFollowUp(e)
+             [] e.ev = "ServePanic" -> OnServePanic(e)
+             [] e.ev = "Concurrent" -> OnConcurrent(e)
              [] OTHER -> UNCHANGED <<inp, res>>
 Spec == Init /\ [][Next]_vars
 \* opens without a result: the process died while serving them
